@@ -37,6 +37,8 @@ MODELS = [
     {"name": "MC_Tree (<= 4 blocks, diffs {1,2}, thr {1,2}, mainnet + regtest with depth bound 2)",
      "module": "MC_Tree", "cfg": "MC_Tree_quick.cfg", "props": ["C02", "C03", "C04", "C07", "C10", "C14"],
      "tiers": ["quick"], "workers": 12, "timeout": 600},
+    {"name": "MC_Tree liveness (<= 4 blocks; under weak fairness of the heartbeat alone, whatever its budget, a paused ingestion always completes - except in the situation of known finding KF_ThresholdRaiseWhilePaused, which TLC finds when the exception is removed)",
+     "module": "MC_Tree", "cfg": "MC_Tree_live.cfg", "props": ["C08"], "tiers": ["quick", "thorough"], "workers": 12, "timeout": 1500},
     {"name": "MC_Tree (<= 5 blocks, diffs {1,2}, thr {1,2}, mainnet + regtest with depth bound 2)",
      "module": "MC_Tree", "cfg": "MC_Tree_thorough.cfg", "props": ["C02", "C03", "C04", "C07", "C10", "C14"],
      "tiers": ["thorough"], "workers": 16, "timeout": 3000, "heap": "24g"},
